@@ -171,10 +171,10 @@ def sameClFrame : Bytes :=
    0, 14, 99, 111, 110, 116, 101, 110, 116, 45, 108, 101, 110, 103, 116, 104, 1, 53,
    0, 14, 99, 111, 110, 116, 101, 110, 116, 45, 108, 101, 110, 103, 116, 104, 1, 53]
 
-/-- a repeated content-length with EQUAL values is accepted (RFC 9110 §8.6 allows a recipient to), the
-    ledger starts at 5 — although `Spec.Http.contentLength`, which wants the field once, says `some none` -/
-theorem repeated_equal_content_length_accepted :
-    Spec.Http.contentLength (fieldsOf rd0 sameClFrame) = some none ∧
+/-- a repeated content-length with EQUAL values: the reference (RFC 9110 §8.6) reads 5, the code accepts
+    the head and the ledger starts at 5 — reference and code agree -/
+theorem repeated_equal_content_length_agrees :
+    Spec.Http.contentLength (fieldsOf rd0 sameClFrame) = some (some 5) ∧
     ((hdrOf rd0 sameClFrame).map fun h => clOf (srv0.recvHeaders h).1 0) = some (some (.remaining 5)) ∧
     ((queuesAfter srv0 rd0 sameClFrame).map fun q => q.map (·.length)) = some [1] := by decide +kernel
 
